@@ -24,6 +24,11 @@ import (
 // compares with the oracle: value of a contract that exists at the block, CONTRACT_NOT_FOUND (20)
 // otherwise. System contracts 0x1/0x2: getNonce / getClassHashAt answer not-found by construction;
 // getStorageAt must return every non-zero slot, and follows expectedOn for zero slots.
+//
+// Round 5: the composition has a Lean model (ModelRpc.lean: stateByBlockID, the class-hash probe of v9,
+// the zero-on-latest probe of v10, the system-contract short cut of getNonce / getClassHashAt) with
+// Props.rpc_reads_correct; every answer of the real handlers is compared with the model's (driver op
+// `rpc`), system contracts and drains included.
 
 type rpcPair struct {
 	v9  *rpcv9.Handler
@@ -92,6 +97,38 @@ func (e *Engine) rpcCheck(n *node) {
 		default:
 			id9, id10 = rpcv9.BlockIDFromHash(e.g.Bundles[t.n].Block.Hash), rpcv10.BlockIDFromHash(e.g.Bundles[t.n].Block.Hash)
 		}
+		// the Lean model of the handlers (ModelRpc.lean) on the same block id
+		var mdl []string
+		ns := len(e.u.Slots)
+		if ans, ok := e.ask("rpc" + strings.TrimPrefix(e.dumpLine(n, map[string]string{"latest": "head", "num": "num", "hash": "hash"}[t.label], t.n), "dump")); ok {
+			mdl = strings.Fields(ans)
+			if len(mdl) != len(e.u.Addrs)*(2*ns+2) {
+				e.fatal("driver answer to rpc (%s, %s %d): %d tokens, want %d: %.80s", n.kind, t.label, t.n, len(mdl), len(e.u.Addrs)*(2*ns+2), ans)
+				mdl = nil
+			}
+		}
+		model := func(ai, off int, ver, method string, q query, got string) {
+			if mdl == nil {
+				return
+			}
+			m := mdl[ai*(2*ns+2)+off]
+			if e.res != nil {
+				e.res.Compared(1)
+			}
+			same := m == got
+			switch {
+			case m == "bnf":
+				same = got == "err:rpc-24"
+			case m == "err":
+				same = strings.HasPrefix(got, "err:rpc-") && got != "err:rpc-24" && got != "err:rpc-20"
+			}
+			if !same {
+				qj := qjson(q)
+				qj["node"], qj["backend"], qj["block_id"], qj["n"], qj["rpc"], qj["method"], qj["impl"], qj["model"] = n.name, n.kind, t.label, t.n, ver, method, got, m
+				e.fail(Failure{Sig: fmt.Sprintf("model-rpc-%s-%s-%s-%s", n.kind, ver, method, t.label),
+					What: fmt.Sprintf("%s backend, rpc %s %s at block %d (%s): implementation %s, model %s", n.kind, ver, method, t.n, t.label, got, m), Query: qj})
+			}
+		}
 		report := func(ver, method string, q query, got string, want []string) {
 			e.stats["rpc:"+method+":"+tokClass(got)]++
 			if contains(want, got) {
@@ -142,6 +179,12 @@ func (e *Engine) rpcCheck(n *node) {
 				}
 				report("v9", "get-"+k, q, g9, want)
 				report("v10", "get-"+k, q, g10, want)
+				off := 2 * ns
+				if k == "classhash" {
+					off++
+				}
+				model(ai, off, "v9", "get-"+k, q, g9)
+				model(ai, off, "v10", "get-"+k, q, g10)
 			}
 			for si := range e.u.Slots {
 				sl := e.u.Slots[si]
@@ -217,6 +260,8 @@ func (e *Engine) rpcCheck(n *node) {
 				}
 				report("v9", "get-storage", q, g9, want9)
 				report("v10", "get-storage", q, g10, want10)
+				model(ai, si, "v9", "get-storage", q, g9)
+				model(ai, ns+si, "v10", "get-storage", q, g10)
 				if glu != "skipped" && g10 != "nf" && !strings.HasPrefix(g10, "err:") && g10 != "panic" {
 					report("v10", "get-storage-last-update-block", query{Kind: "lu", Addr: &a, Slot: &sl}, glu,
 						e.expectedOn(n, st, query{Kind: "lu", Addr: &a, Slot: &sl}, t.label == "latest"))
